@@ -11,6 +11,7 @@ kind x path x number x code, and CLI conformance through stub `git` / `rg` execu
 import itertools
 import json
 import os
+import re
 import stat
 import time
 
@@ -26,12 +27,15 @@ PROP = "C16"
 TABS = 4
 
 PATHS_FULL = ["a.rs", "src/a-b.rs", "x-7-y.rs", "d.d/f.c", "Makefile", "a b.rs", "v1.2/x.c",
-              "pkg-1.2-3-rc/src/main.rs", "v2.0=1=x/y.c", "lib-0.9:2/z.py"]
+              "pkg-1.2-3-rc/src/main.rs", "v2.0=1=x/y.c", "lib-0.9:2/z.py", "app.properties", "style.css"]
 PATHS_SMALL = ["a.rs", "src/a-b.rs", "x-7-y.rs", "Makefile", "pkg-1.2-3-rc/src/main.rs"]
 NUMBERS_FULL = [None, 1, 7, 123]
 NUMBERS_SMALL = [None, 7, 123]
 CODES_FULL = ["x", "a:b", "foo-7-bar", "", "\tind", "é漢", "long " * 12 + "end", "main() main",
-              "  \t  \tint main = 2;", "\t\tmain", " \tmain", "odds = arr[1:10:2]", "at 12:30:00 main", "   "]
+              "  \t  \tint main = 2;", "\t\tmain", " \tmain", "odds = arr[1:10:2]", "at 12:30:00 main", "   ",
+              # code that begins with, or contains, a dotted name followed by one separator (no number): covered by the
+              # plain-text guarantee
+              "server.port=8080", ".btn-primary { color: red }", "-include config", "main.o: main.c", "=== section"]
 CODES_SMALL = ["x main", "a:b-3-c", "", "\tmain é", "    \t    \tint main = 2;"]
 KINDS = [("match", ":"), ("context", "-"), ("header", "=")]
 
@@ -133,7 +137,7 @@ class Streams(Problem):
 
     # producer state: (n hits so far, last path (for json begin/end framing))
     def initial(self):
-        return ((0, None, False), ((), None, b""))
+        return ((0, None, False), ((), None, b"", None))
 
     def successors(self, ps):
         n, last, insep = ps
@@ -154,7 +158,7 @@ class Streams(Problem):
         return out
 
     def _consume(self, model, out, at_eof=False):
-        q, cur_header, partial = model
+        q, cur_header, partial, prev_path = model
         q = list(q)
         # classic rows are written in two parts (path and number at once, the code with the next
         # line): only complete output lines are parsed, the rest is carried to the next step
@@ -181,11 +185,17 @@ class Streams(Problem):
                 raise ViolationError("extra-row", "a grep row %r/%r/%r with no pending hit" % (path, number, code),
                                      observed=[path, number, code])
             h = q.pop(0)
+            first_of_file, prev_path = (prev_path != h.path), h.path
             shown_path = path if path is not None else cur_header
             if h.kind == "header" and path is None:
                 shown_path = h.path       # function-context header rows are not required to repeat the path
             if shown_path != h.path:
-                raise ViolationError("wrong-path", "hit of %r shown under path %r" % (h.path, shown_path),
+                klass = "wrong-path"
+                if self.encoding == "plain" and h.sep in "-=" and first_of_file and re.search(r"\.\w+[:=-]", h.code):
+                    # the first line of a file's group is a context / header line whose code holds `name.ext<separator>`
+                    # (nothing before it says where the path ends): see known_findings.json
+                    klass = "wrong-path:dotted-name-in-code-of-leading-context-line"
+                raise ViolationError(klass, "hit of %r shown under path %r" % (h.path, shown_path),
                                      expected=h.path, observed=shown_path)
             want_n = None if h.number is None else str(h.number)
             if want_n is None and number is not None:
@@ -203,23 +213,25 @@ class Streams(Problem):
                     # adjacent matches would merge into one run; the alphabet has none
                     raise ViolationError("wrong-submatch", "match cells %r, the tool reported %d x 'main' in %r"
                                          % (mruns, n_m, h.code), expected=["main"] * n_m, observed=mruns)
-        return (tuple(q), cur_header, partial)
+        return (tuple(q), cur_header, partial, prev_path)
 
     def step(self, model, line, kind, out, ps):
-        q, cur, partial = model
+        q, cur, partial, prev = model
         if kind.startswith("hit:"):
             q = q + (self.hits[int(kind[4:])],)
-        return self._consume((q, cur, partial), out)
+        if kind == "sep":
+            pass
+        return self._consume((q, cur, partial, prev), out)
 
     def eof(self, model, out, ps):
-        q, cur, partial = self._consume(model, out, at_eof=True)
+        q, cur, partial, prev = self._consume(model, out, at_eof=True)
         if q:
             raise ViolationError("dropped-hit", "%d hit(s) never shown (first: %s:%s:%r)"
                                  % (len(q), q[0].path, q[0].number, q[0].code), expected=q[0].code)
 
     def model_key(self, model):
-        q, cur, partial = model
-        return (tuple(h.key() for h in q), cur, partial)
+        q, cur, partial, prev = model
+        return (tuple(h.key() for h in q), cur, partial, prev)
 
 
 def make_hits(paths, numbers, codes, kinds=KINDS):
@@ -297,6 +309,26 @@ def run_multiline(task):
     viols = []
     n = 0
     outs = set()
+    # one-line records whose submatch reaches into the line terminator (`rg 'bar\s*$'` on a CRLF file): highlighted up to
+    # the end of the line, like the same record with the submatch cut there
+    for code in ML_CODES:
+        for nl in ("\n", "\r\n"):
+            cb = code.encode("utf-8")
+            if len(cb) < 2:
+                continue
+            a = len(cb) - (4 if cb.endswith(b"main") else 1)
+            full = rg_record("match", "src/a.rs", 7, code + nl, [(a, len(cb) + len(nl))])
+            cut = rg_record("match", "src/a.rs", 7, code + nl, [(a, len(cb))])
+            r1, r2 = drv.render(cid, [full, cut])
+            n += 1
+            if (r1.panic or r1.out != r2.out) and not viols:
+                v = Violation("submatch-into-terminator-differs", "record %r with submatch %d..%d (into the terminator) is rendered "
+                              "differently from the same record with the submatch ending at the end of the line: %r vs %r"
+                              % (code + nl, a, len(cb) + len(nl), (r1.panic or r1.out.decode("utf-8", "replace"))[:200],
+                                 r2.out.decode("utf-8", "replace")[:200]), full.split(b"\n")[:-1], None, r2.out[:300], r1.out[:300])
+                v.args = args
+                v.config_label = "terminator," + label
+                viols.append(v)
     for k in ks:
         for codes in itertools.product(ML_CODES, repeat=k):
             for nl in ("\n", "\r\n"):
